@@ -1082,8 +1082,10 @@ func (app *App) updateActiveNodes(clusterState, clusterStateDcs map[string]*node
 			if derr := app.disableSemiSyncOnSlave(hostname, false); derr != nil {
 				return fmt.Errorf("failed to roll back semi-sync on %s: %w", hostname, derr)
 			}
-			waitSlaveCount--
 			activeNodes = filterOut(activeNodes, []string{hostname})
+			// the ack requirement follows the list that will be published: a failed join does not
+			// always lower it (e.g. two joining replicas with wait_for_slave_count = 1)
+			waitSlaveCount = app.switchHelper.GetRequiredWaitSlaveCount(filterOut(activeNodes, becomeDataLag))
 			continue
 		}
 
